@@ -137,20 +137,28 @@ class Journaler:
         else:
             next_num_in = session.next_num_in
 
-        self.cursor.execute(
-            "UPDATE session SET inboundSeqNo=?, outboundSeqNo=?  WHERE sessionId = ?",
-            (next_num_in - 1, next_num_out - 1, session.key),
-        )
+        try:
+            self.cursor.execute(
+                "UPDATE session SET inboundSeqNo=?, outboundSeqNo=?"
+                "  WHERE sessionId = ?",
+                (next_num_in - 1, next_num_out - 1, session.key),
+            )
 
-        self.cursor.execute(
-            "DELETE FROM message WHERE session = ? AND seqNo >= ? AND direction = ?",
-            (session.key, next_num_in, MessageDirection.INBOUND.value),
-        )
-        self.cursor.execute(
-            "DELETE FROM message WHERE session = ? AND seqNo >= ? AND direction = ?",
-            (session.key, next_num_out, MessageDirection.OUTBOUND.value),
-        )
-        self.conn.commit()
+            self.cursor.execute(
+                "DELETE FROM message"
+                " WHERE session = ? AND seqNo >= ? AND direction = ?",
+                (session.key, next_num_in, MessageDirection.INBOUND.value),
+            )
+            self.cursor.execute(
+                "DELETE FROM message"
+                " WHERE session = ? AND seqNo >= ? AND direction = ?",
+                (session.key, next_num_out, MessageDirection.OUTBOUND.value),
+            )
+            self.conn.commit()
+        except Exception:
+            # all or nothing: never leave a half applied renumbering pending
+            self.conn.rollback()
+            raise
 
     def persist_msg(
         self,
